@@ -414,6 +414,102 @@ public final class HdwPrims {
         }
     }
 
+    // ------------------------------------------------------------------ bulk oracle (module Ecdsa)
+    // Native evaluation of Ecdsa!BulkSignHash: SHA-256 over r || s || yParity of the specification's signatures
+    // (RFC 6979 nonce, low-s normalisation with parity flip) of the digests SHA-256(seed || i as 8 bytes),
+    // i = from .. from + n - 1.  Semantically equal to the TLA+ definition Ecdsa!BulkSignHashSpec, which PrimTest
+    // compares it with; it only makes sweeps of 10^5 .. 10^7 signatures feasible (fixed-base comb multiplication).
+    static BigInteger[][][] COMB;   // COMB[i][j-1] = j * 256^i * G, affine {x, y}
+
+    static synchronized void comb() {
+        if (COMB != null) return;
+        BigInteger[][][] t = new BigInteger[32][255][];
+        BigInteger[] base = G;
+        for (int i = 0; i < 32; i++) {
+            BigInteger[] acc = INF;
+            for (int j = 1; j <= 255; j++) {
+                acc = add(acc, base);
+                t[i][j - 1] = affine(acc);
+            }
+            for (int b = 0; b < 8; b++) base = dbl(base);
+            BigInteger[] a = affine(base);
+            base = new BigInteger[] {a[0], a[1], BigInteger.ONE};
+        }
+        COMB = t;
+    }
+
+    // Jacobian + affine
+    static BigInteger[] addMixed(BigInteger[] p, BigInteger[] q) {
+        if (p[2].signum() == 0) return new BigInteger[] {q[0], q[1], BigInteger.ONE};
+        BigInteger z1z1 = p[2].multiply(p[2]).mod(P);
+        BigInteger u2 = q[0].multiply(z1z1).mod(P);
+        BigInteger s2 = q[1].multiply(p[2]).multiply(z1z1).mod(P);
+        if (p[0].equals(u2)) {
+            if (p[1].equals(s2)) return dbl(p);
+            return INF;
+        }
+        BigInteger h = u2.subtract(p[0]).mod(P), r = s2.subtract(p[1]).mod(P);
+        BigInteger hh = h.multiply(h).mod(P), hhh = hh.multiply(h).mod(P), v = p[0].multiply(hh).mod(P);
+        BigInteger x3 = r.multiply(r).subtract(hhh).subtract(v.shiftLeft(1)).mod(P);
+        BigInteger y3 = r.multiply(v.subtract(x3)).subtract(p[1].multiply(hhh)).mod(P);
+        BigInteger z3 = h.multiply(p[2]).mod(P);
+        return new BigInteger[] {x3, y3, z3};
+    }
+
+    static BigInteger[] baseMulFast(BigInteger k) {
+        comb();
+        byte[] kb = fixed(k, 32);
+        BigInteger[] acc = INF;
+        for (int i = 0; i < 32; i++) {
+            int d = kb[31 - i] & 0xff;
+            if (d != 0) acc = addMixed(acc, COMB[i][d - 1]);
+        }
+        return affine(acc);
+    }
+
+    static final BigInteger HALF_N = N.shiftRight(1);
+
+    @TLAPlusOperator(identifier = "BulkSignHash", module = "Ecdsa", warn = false)
+    public static Value bulkSignHash(final Value d, final Value seed, final Value from, final Value n) throws Exception {
+        byte[] x = fixed(big(d), 32), sd = bytesOf(seed);
+        BigInteger dd = new BigInteger(1, x);
+        long lo = intOf(from);
+        int cnt = intOf(n);
+        MessageDigest all = MessageDigest.getInstance("SHA-256");
+        MessageDigest one = MessageDigest.getInstance("SHA-256");
+        Mac mac = Mac.getInstance("HmacSHA256");
+        byte[] ctr = new byte[8];
+        for (long i = lo; i < lo + cnt; i++) {
+            for (int b = 0; b < 8; b++) ctr[b] = (byte) (i >>> (56 - 8 * b));
+            one.update(sd);
+            byte[] z = one.digest(ctr);
+            BigInteger e = new BigInteger(1, z).mod(N);
+            byte[] h = fixed(e, 32);
+            // RFC 6979 3.2
+            byte[] V = new byte[32], K = new byte[32];
+            Arrays.fill(V, (byte) 1);
+            mac.init(new SecretKeySpec(K, "HmacSHA256")); mac.update(V); mac.update((byte) 0); mac.update(x); K = mac.doFinal(h);
+            mac.init(new SecretKeySpec(K, "HmacSHA256")); V = mac.doFinal(V);
+            mac.update(V); mac.update((byte) 1); mac.update(x); K = mac.doFinal(h);
+            mac.init(new SecretKeySpec(K, "HmacSHA256")); V = mac.doFinal(V);
+            BigInteger k;
+            while (true) {
+                V = mac.doFinal(V);
+                k = new BigInteger(1, V);
+                if (k.signum() > 0 && k.compareTo(N) < 0) break;
+                mac.update(V); K = mac.doFinal(new byte[] {0});
+                mac.init(new SecretKeySpec(K, "HmacSHA256")); V = mac.doFinal(V);
+            }
+            BigInteger[] R = baseMulFast(k);
+            BigInteger r = R[0].mod(N);
+            int par = R[1].testBit(0) ? 1 : 0;
+            BigInteger s = k.modInverse(N).multiply(e.add(r.multiply(dd))).mod(N);
+            if (s.compareTo(HALF_N) > 0) { s = N.subtract(s); par = 1 - par; }
+            all.update(fixed(r, 32)); all.update(fixed(s, 32)); all.update((byte) par);
+        }
+        return tupleOf(all.digest());
+    }
+
     // ------------------------------------------------------------------ search accelerator (module Bip32)
     // Native evaluation of Bip32!RareHardenedChild: the smallest hardened index i in lo..hi whose CKDpriv child of
     // (k, c) is valid and starts with at least nz zero bytes, or -1.  Semantically equal to the TLA+ definition
